@@ -126,6 +126,7 @@ def run(chk: Check):
                 chk.violation({"kind": img["kind"], "modified": True}, f"{img['kind']}: the image file was modified")
         # trace validation of the recorded export executions
         rej = traces.validate(chk, "ExportTrace", ex_events, f"trace validation: export-level protocol, {tid} executions")
+        rej_export = list(rej)
         for rj in rej:
             chk.violation({"trace": "export", "events": ex_events[max(0, rj["line"] - 4): rj["line"]]}, f"export trace rejected: {rj['clauses']}")
         # stream traces: views are created before recording starts, so register them from their first event
@@ -135,7 +136,7 @@ def run(chk: Check):
             chk.violation({"trace": "stream", "events": st[max(0, rj["line"] - 3): rj["line"]]}, f"stream trace rejected: {rj['clauses']}")
         chk.extra["trace_events_validated"] = {"export": len(ex_events), "stream": min(len(st), 60000)}
         # binding self-test: corrupt one field of a genuine trace
-        if ex_events:
+        if ex_events and not rej_export:
             bad = [dict(e) for e in ex_events[:40]]
             for e in bad:
                 if e["event"] == "Write":
